@@ -76,6 +76,11 @@ def run(ctx):
         if r['status'] not in ('agree', 'agree-rejected'):
             res['counterexamples'].append({'key': 'c02:transform:' + r['program'].replace('\n', ' '), 'what': 'transform() and Model/FutTransform.transform_program differ: %s' % r.get('what'),
                                            'input': {'transform_rules': p, 'program': r['program']}})
+    # atoms with arguments (primes, classical negation and the time stamp around argument lists): the programs with their atoms renamed against the programs themselves
+    import meta
+    rcex, rnon = meta.renaming_cex(ctx, [p for _, p in progs][:40 if ctx.quick else 200], H, 'C02')
+    res['counterexamples'] += rcex
+    res['coverage']['renamed_programs_with_answer_sets'] = rnon
     res['coverage']['evaluations'] += len(srecs)
     res['coverage']['transform_structure_status'] = sstat
     res['coverage']['transform_structure_lookahead_groups'] = sum(r['lookahead_groups'] for r in srecs)
@@ -89,6 +94,9 @@ def run(ctx):
 
 def replay(ctx, payload):
     inp = payload['input']
+    if 'renaming' in inp:
+        import meta
+        return meta.renaming_replay(ctx, payload)
     if 'transform_rules' in inp:
         return ftstruct.compare(ctx, [inp['transform_rules']])[0]['status'] not in ('agree', 'agree-rejected')
     return c01.replay(ctx, payload)
